@@ -5,25 +5,17 @@ namespace BtcVerif.Generated
 open BtcVerif.Spec
 
 def chainTable : List ChainParams := [
-  { name := "mainnet", messageStart := [249, 190, 180, 217], defaultPort := 8333, rpcPort := 8332,
+  { name := "mainnet", messageStart := [249, 190, 180, 217],
     pubkeyAddr := 0, scriptAddr := 5, secretKey := 128, bech32Hrp := "bc",
-    maxMoney := 2100000000000000, powLimit := 26959946667150639794667015087019630673637144422540572481103610249215,
-    subsidyHalvingInterval := 210000,
-    genesisHash := "6fe28c0ab6f1b372c1a6a246ae63f74f931e8365e15a089c68d6190000000000" },
-  { name := "testnet", messageStart := [11, 17, 9, 7], defaultPort := 18333, rpcPort := 18332,
+    maxMoney := 2100000000000000, powLimit := 26959946667150639794667015087019630673637144422540572481103610249215 },
+  { name := "testnet", messageStart := [11, 17, 9, 7],
     pubkeyAddr := 111, scriptAddr := 196, secretKey := 239, bech32Hrp := "tb",
-    maxMoney := 2100000000000000, powLimit := 26959946667150639794667015087019630673637144422540572481103610249215,
-    subsidyHalvingInterval := 210000,
-    genesisHash := "43497fd7f826957108f4a30fd9cec3aeba79972084e90ead01ea330900000000" },
-  { name := "signet", messageStart := [10, 3, 207, 64], defaultPort := 38333, rpcPort := 38332,
+    maxMoney := 2100000000000000, powLimit := 26959946667150639794667015087019630673637144422540572481103610249215 },
+  { name := "signet", messageStart := [10, 3, 207, 64],
     pubkeyAddr := 111, scriptAddr := 196, secretKey := 239, bech32Hrp := "tb",
-    maxMoney := 2100000000000000, powLimit := 26959946667150639794667015087019630673637144422540572481103610249215,
-    subsidyHalvingInterval := 210000,
-    genesisHash := "f61eee3b63a380a477a063af32b2bbc97c9ff9f01f2c4225e973988108000000" },
-  { name := "regtest", messageStart := [250, 191, 181, 218], defaultPort := 18444, rpcPort := 18443,
+    maxMoney := 2100000000000000, powLimit := 26959946667150639794667015087019630673637144422540572481103610249215 },
+  { name := "regtest", messageStart := [250, 191, 181, 218],
     pubkeyAddr := 111, scriptAddr := 196, secretKey := 239, bech32Hrp := "bcrt",
-    maxMoney := 2100000000000000, powLimit := 57896044618658097711785492504343953926634992332820282019728792003956564819967,
-    subsidyHalvingInterval := 150,
-    genesisHash := "06226e46111a0b59caaf126043eb5bbf28c34f3a5e332a1fc7b2b73cf188910f" } ]
+    maxMoney := 2100000000000000, powLimit := 57896044618658097711785492504343953926634992332820282019728792003956564819967 } ]
 
 end BtcVerif.Generated
